@@ -61,9 +61,6 @@ type solverSpec struct {
 
 var solvers = []solverSpec{
 	{"z3-new", func(f string, t int) []string { return []string{"z3-new", fmt.Sprintf("-T:%d", t), f} }},
-	{"z3-new-bv2", func(f string, t int) []string {
-		return []string{"z3-new", fmt.Sprintf("-T:%d", t), "smt.bv.solver=2", f}
-	}},
 	{"z3", func(f string, t int) []string { return []string{"z3", fmt.Sprintf("-T:%d", t), f} }},
 	{"cvc5", func(f string, t int) []string {
 		return []string{"cvc5", "--produce-models", fmt.Sprintf("--tlimit=%d", t*1000), f}
@@ -152,6 +149,61 @@ func (g *gen) discharge(base string, opt dischargeOpts) []result {
 			}
 		}
 	}
+	// leaf symbols (undefined constants) each symbol depends on, for the "sibling term" rule below
+	leafMemo := map[string][]string{}
+	var leaves func(s string, depth int) []string
+	leaves = func(s string, depth int) []string {
+		if l, ok := leafMemo[s]; ok {
+			return l
+		}
+		leafMemo[s] = nil // cycle guard
+		ds := defOf[s]
+		if len(ds) == 0 || depth > 60 {
+			leafMemo[s] = []string{s}
+			return leafMemo[s]
+		}
+		set := map[string]bool{}
+		for _, i := range ds {
+			for _, t := range as[i].syms {
+				for _, l := range leaves(t, depth+1) {
+					set[l] = true
+				}
+			}
+		}
+		var out []string
+		for l := range set {
+			out = append(out, l)
+		}
+		if len(out) > 64 {
+			out = append(out[:64], "#many")
+		}
+		leafMemo[s] = out
+		return out
+	}
+	type asmLeaves struct {
+		idx    int
+		leaves []string
+	}
+	var siblings []asmLeaves
+	for i := range as {
+		if as[i].def != "" || strings.Contains(as[i].text, "(forall") || len(as[i].syms) > 24 {
+			continue
+		}
+		set := map[string]bool{}
+		for _, s := range as[i].syms {
+			for _, l := range leaves(s, 0) {
+				set[l] = true
+			}
+		}
+		if set["#many"] || len(set) > 48 {
+			continue
+		}
+		var ls []string
+		for l := range set {
+			ls = append(ls, l)
+		}
+		siblings = append(siblings, asmLeaves{i, ls})
+	}
 	res := make([]result, len(g.obls))
 	if g.replay != nil {
 		g.replay.queryTerms() // computed once, before the workers start
@@ -186,13 +238,13 @@ func (g *gen) discharge(base string, opt dischargeOpts) []result {
 				s := work[len(work)-1]
 				work = work[:len(work)-1]
 				for _, i := range defOf[s] {
-					if !incl[i] {
+					if !incl[i] && i < o.nAsserts {
 						incl[i] = true
 						add(as[i].syms)
 					}
 				}
 				for _, i := range usedBy[s] {
-					if !incl[i] {
+					if !incl[i] && i < o.nAsserts {
 						incl[i] = true
 						add(as[i].syms)
 					}
@@ -202,6 +254,47 @@ func (g *gen) discharge(base string, opt dischargeOpts) []result {
 						inclO[j] = true
 						add(oas[j].syms)
 					}
+				}
+			}
+			// sibling rule: an assumption that only talks about terms built from needed leaf symbols is relevant even
+			// if it names them through other SSA values (e.g. a fact about an earlier load of the same location)
+			for pass := 0; pass < 2 && os.Getenv("GOVC_NOSIB") == ""; pass++ {
+				added := false
+				for _, sa := range siblings {
+					if incl[sa.idx] || sa.idx >= o.nAsserts {
+						continue
+					}
+					ok := true
+					for _, l := range sa.leaves {
+						if !need[l] {
+							ok = false
+							break
+						}
+					}
+					if ok {
+						incl[sa.idx] = true
+						add(as[sa.idx].syms)
+						added = true
+					}
+				}
+				for len(work) > 0 {
+					s := work[len(work)-1]
+					work = work[:len(work)-1]
+					for _, i := range defOf[s] {
+						if !incl[i] && i < o.nAsserts {
+							incl[i] = true
+							add(as[i].syms)
+						}
+					}
+					for _, i := range usedBy[s] {
+						if !incl[i] && i < o.nAsserts {
+							incl[i] = true
+							add(as[i].syms)
+						}
+					}
+				}
+				if !added {
+					break
 				}
 			}
 			var sb strings.Builder
